@@ -2,7 +2,7 @@
 import re
 
 from mirlib import AnchorMissing, path_matches, op_place, const_int
-from helpers import (aggregates, arm, branches_on_call, bool_branches, enum_switches, loop_of, must_pass, ok_dominates, try_edges, vexpr, origin_calls)
+from helpers import (aggregates, arm, closure_of_arg, branches_on_call, bool_branches, enum_switches, loop_of, must_pass, ok_dominates, try_edges, vexpr, origin_calls)
 from props import c07, c11
 import entrypoints
 import panics
@@ -199,6 +199,16 @@ def r_compare_before_write(r, prog):
         if 'read(' in a0 + a1 and 'arg1.contents' in a0 + a1:
             # identical -> return without create
             if cr[0].bb not in f.reachable(b['true'], blocked=[b['bb']]) and b['true'] != b['false']:
+                good = True
+    if not good:
+        # second idiom: read(path).is_ok_and(|current| current == bytes) branched on directly
+        for b in branches_on_call(f, lambda c: c.name() == 'is_ok_and' and 'read(' in vexpr(f, c.args[0])):
+            cl = closure_of_arg(prog, f, b['call'].args[1])
+            if cl is None:
+                continue
+            cmpv = vexpr(cl, {'cp': {'l': 0}}, depth=8)
+            if re.match(r'^eq\(', cmpv) and 'arg2' in cmpv and 'contents' in vexpr(f, b['call'].args[1]) + cmpv \
+                    and cr[0].bb not in f.reachable(b['true'], blocked=[b['bb']]) and b['true'] != b['false']:
                 good = True
     if good:
         r.ok('identical existing contents -> the file is left untouched')
